@@ -1300,6 +1300,7 @@ class EdgeQLSourceGenerator(codegen.SourceGenerator):
         self,
         node: qlast.CreateExtension,
     ) -> None:
+        self._visit_aliases(node)
         if self.sdlmode or self.descmode:
             self._write_keywords('using extension')
         else:
@@ -1313,6 +1314,7 @@ class EdgeQLSourceGenerator(codegen.SourceGenerator):
             self._ddl_visit_body(node.commands)
 
     def visit_AlterExtension(self, node: qlast.AlterExtension) -> None:
+        self._visit_aliases(node)
         self._write_keywords('ALTER EXTENSION')
         self.write(' ')
         self.write(ident_to_str(node.name.name))
@@ -1323,12 +1325,17 @@ class EdgeQLSourceGenerator(codegen.SourceGenerator):
         self,
         node: qlast.DropExtension,
     ) -> None:
-        self._visit_DropObject(node, 'EXTENSION')
+        def after_name() -> None:
+            if node.version is not None:
+                self._write_keywords(' VERSION ')
+                self.visit(node.version)
+        self._visit_DropObject(node, 'EXTENSION', after_name=after_name)
 
     def visit_CreateFuture(
         self,
         node: qlast.CreateFuture,
     ) -> None:
+        self._visit_aliases(node)
         if self.sdlmode or self.descmode:
             self._write_keywords('using future')
         else:
